@@ -228,19 +228,39 @@ static void OpenDB(char *dbpath, sqlite3 **db)
 static void DropAllTables(sqlite3 *db)
 {
     int rc;
+    int lenght;
+    char *sql;
     char *err_msg = 0;
-    const char *dropAllObjectsSQL = "SELECT 'DROP TABLE IF EXISTS ' || name || ';' FROM sqlite_master WHERE type = 'table';";
-    /* Execute SQL statement */
-    rc = sqlite3_exec(db, dropAllObjectsSQL, 0, 0, &err_msg);
-    if(rc != SQLITE_OK){
-        fprintf(stderr, "SQL error: %s\n", err_msg);
-        sqlite3_free(err_msg);
+    sqlite3_stmt* stmt;
+    /* A SELECT that builds the DROP statements as text only lists them, it drops nothing.
+     * Ask for the name of one remaining table at a time and drop it, until none is left.
+     */
+    const char *nextTableSQL = "SELECT name FROM sqlite_master WHERE type = 'table' AND name NOT LIKE 'sqlite_%' LIMIT 1;";
+    for(;;){
+        rc = sqlite3_prepare_v2(db, nextTableSQL, -1, &stmt, 0);
+        if(rc != SQLITE_OK){
+            fprintf(stderr, "SQL error: %s\n", sqlite3_errmsg(db));
+            return;
+        }
+
+        if(sqlite3_step(stmt) != SQLITE_ROW){
+            sqlite3_finalize(stmt);
+            return;
+        }
+
+        lenght = snprintf(NULL, 0, "DROP TABLE IF EXISTS %s;", (const char*)sqlite3_column_text(stmt, 0));
+        sql = xmalloc(lenght+1);
+        snprintf(sql, lenght+1, "DROP TABLE IF EXISTS %s;", (const char*)sqlite3_column_text(stmt, 0));
+        sqlite3_finalize(stmt);
+
+        rc = sqlite3_exec(db, sql, 0, 0, &err_msg);
+        xfree(sql);
+        if(rc != SQLITE_OK){
+            fprintf(stderr, "SQL error: %s\n", err_msg);
+            sqlite3_free(err_msg);
+            return;
+        }
     }
-    #ifdef DEBUG
-    else{
-        fprintf(stdout, "Table created successfully\n");
-    }
-    #endif
 }
 
 static void CloseDB(sqlite3 *db)
